@@ -742,6 +742,26 @@ func jobC10(c *rt.Ctx) {
 	}
 	// Pack of non-normalised representations
 	zs := []*big.Int{big.NewInt(1), big.NewInt(2), badd(ref.P, -1), badd(pow2(255), -20), a0, big.NewInt(19)}
+	// the scale factor is an input like any other: single-limb values at every limb boundary of both
+	// layouts (Z = 2^51 is stored as limbs {0,1,0,0,0}), their neighbours, and values whose limbs are all
+	// 0/1 or all equal - a test "Z is one" written over a fold of the limbs takes these for 1
+	lay64 := []uint{0, 51, 102, 153, 204}
+	lay32 := []uint{0, 26, 51, 77, 102, 128, 153, 179, 204, 230}
+	for _, lay := range [][]uint{lay64, lay32} {
+		ones, twos, alt := new(big.Int), new(big.Int), new(big.Int)
+		for i, b := range lay {
+			ones.Add(ones, pow2(b))
+			twos.Add(twos, pow2(b+1))
+			if i%2 == 1 {
+				alt.Add(alt, pow2(b))
+			}
+			if b == 0 {
+				continue
+			}
+			zs = append(zs, pow2(b), badd(pow2(b), 1), badd(pow2(b), -1), new(big.Int).Add(pow2(b), pow2(lay[i-1])))
+		}
+		zs = append(zs, ones, twos, alt, badd(alt, 1))
+	}
 	var pts []ref.Point
 	for i := 0; i < 8; i++ {
 		pts = append(pts, ref.Torsion(i))
